@@ -82,9 +82,23 @@ impl Probe for TimingProbe {
                 self.last_tx.insert(it, now);
             }
         }
-        // promptness: budget is ample in these scenarios, so every unacknowledged item whose
-        // resend_time has elapsed (or that was never sent) must be part of this flush
+        // promptness: every unacknowledged item whose resend_time has elapsed (or that was never sent) must be part of
+        // this flush — unless the tick budget could not take it: the budget only shrinks during a flush, so if what is
+        // left at the end still holds a whole slice (the most any single item needs), the item had room when its channel
+        // was served
         if l.ends.disconnect_reason(dir).is_some() {
+            return Ok(());
+        }
+        let used: u64 = l.emitted[first..]
+            .iter()
+            .map(|p| match &p.info {
+                PktInfo::SmallReliable { msgs, .. } => msgs.iter().map(|(_, n)| *n as u64).sum::<u64>(),
+                PktInfo::SmallUnreliable { lens, .. } => lens.iter().map(|n| *n as u64).sum::<u64>(),
+                PktInfo::ReliableSlice { len, .. } | PktInfo::UnreliableSlice { len, .. } => *len as u64,
+                _ => 0,
+            })
+            .sum();
+        if l.cfg.bytes_per_tick.saturating_sub(used) < 1200 {
             return Ok(());
         }
         // (a) by the harness's own bookkeeping: an item that was transmitted and for which no acknowledgement
@@ -319,6 +333,24 @@ pub fn scenarios(tier: Tier) -> Vec<LinkScenario<fn() -> Box<dyn Probe>>> {
         cfg.drains = vec![Drain::End];
         cfg.fates = vec![Fate::Ok, Fate::Drop, Fate::Dup, Fate::Delay1, Fate::Delay2];
         cfg.script = vec![Send::at(0, dir, 0, 1), Send::at(1, dir, 0, 2), Send::at(3, dir, 0, 3)];
+        out.push(LinkScenario {
+            cfg,
+            probe: (|| Box::new(TimingProbe::new()) as Box<dyn Probe>) as fn() -> Box<dyn Probe>,
+        });
+    }
+    // a tick budget of one or two slices for a three-slice message whose acknowledgements are lost for four ticks: the
+    // slices leave in different ticks and fall due in different ticks
+    for (budget, dir) in [(2400u64, 0usize), (2400, 1), (1200, 0), (3600, 1)] {
+        let mut cfg = LinkCfg::base(&format!("{} B per tick, message 2401+1, acks lost in ticks 0-3, dir{}", budget, dir), chans(), chans());
+        cfg.bytes_per_tick = budget;
+        cfg.dt_ms = vec![r / 3];
+        cfg.horizon = 4;
+        cfg.tail = 14;
+        cfg.dir_outage = Some((1 - dir, 0, 4));
+        cfg.faults_dir = [dir == 0, dir == 1];
+        cfg.drains = vec![Drain::End];
+        cfg.fates = vec![Fate::Ok, Fate::Drop, Fate::Dup, Fate::Delay1, Fate::Delay2];
+        cfg.script = vec![Send::at(0, dir, 0, 2401), Send::at(0, dir, 0, 1)];
         out.push(LinkScenario {
             cfg,
             probe: (|| Box::new(TimingProbe::new()) as Box<dyn Probe>) as fn() -> Box<dyn Probe>,
